@@ -5,8 +5,9 @@ open Ak Ak.Proto Ghist
 /-!
 `rep <remote> <commits> <refs>`
 * remote  : code points
-* commits : `;`-separated `parents:tags:match` (`parents` = comma list or `-`; `tags` = `+`-separated
-            `major.minor.patch.build` or `-`; `match` = 0/1), the position is the commit id; `-` = no commit
+* commits : `;`-separated `parents:tags:match:time` (`parents` = comma list or `-`; `tags` = `+`-separated
+            `major.minor.patch.build` or `-`; `match` = 0/1; `time` = commit time in seconds), the position is the
+            commit id; `-` = no commit
 * refs    : `;`-separated `name:head` (`name` as code points), `-` = none
 reply: `ok <branch> <branch> …`, branch = `name=build;build;…`, build = `N|M:bn:commit|-:c,c,…`
 -/
@@ -21,10 +22,11 @@ def parseTags (s : String) : Option (List BN) :=
 
 def parseCommit (s : String) : Option (Commit Unit) :=
   match s.splitOn ":" with
-  | [p, t, m] =>
-    match parseNatList p, parseTags t, m.toNat? with
-    | some ps, some ts, some k => some { parents := ps, tags := ts, isMatch := k != 0, pins := () }
-    | _, _, _ => none
+  | [p, t, m, ts] =>
+    match parseNatList p, parseTags t, m.toNat?, ts.toNat? with
+    | some ps, some tg, some k, some time =>
+      some { parents := ps, tags := tg, isMatch := k != 0, pins := (), time := time }
+    | _, _, _, _ => none
   | _ => none
 
 def parseList {α} (f : String → Option α) (s : String) : Option (List α) :=
